@@ -41,6 +41,7 @@ CONSTANTS
     ImplicitDirMode755,     \* getOrCreateDir creates missing parents with mode 0755
     LinksCountOnSource,     \* a hard link increments NumLink of its (resolved) source
     SymlinkSizeFromTarget,  \* entryToAttr: size of a symlink = len(LinkName)
+    SpecialBitsIndependent, \* fileModeToSystemMode tests setuid, setgid and sticky each on its own (not "the first that is set")
     MkdevSplit,             \* entryToAttr packs rdev with unix.Mkdev (12+20 bit split), not major<<8|minor
     MemoOnlyHidesAbsent,    \* the memoised listing answers ENOENT only for names that are not children
     AttrOpsEverywhere       \* generation only: FALSE = Getattr/Readlink/Getxattr (independent of memo) only before any listing is memoised
@@ -126,7 +127,12 @@ CodeAttr(p) ==
     Bind(CodeSource(p, 6), LAMBDA q :
     Bind(CodeEnt(q), LAMBDA e :
     LET nl == IF e.type = "dir" THEN 2 + Cardinality({c \in AllPaths : IsChild(q, c) /\ CodeEnt(c).type = "dir"}) ELSE CodeNumLink(q)
-    IN [mode |-> TypeBits(e.type) + (e.mode % 4096),                    \* fileModeToSystemMode
+        \* fileModeToSystemMode: permission bits, then S_ISUID / S_ISGID / S_ISVTX; the negative control keeps only
+        \* the first special bit that is set (one switch instead of three ifs)
+        sp == (e.mode % 4096) \div 512
+        special == IF SpecialBitsIndependent THEN sp * 512
+                   ELSE IF sp \div 4 = 1 THEN 2048 ELSE IF (sp \div 2) % 2 = 1 THEN 1024 ELSE IF sp % 2 = 1 THEN 512 ELSE 0
+    IN [mode |-> TypeBits(e.type) + (e.mode % 512) + special,
         size |-> IF e.type = "symlink" THEN (IF SymlinkSizeFromTarget THEN Len(e.target) ELSE 0)
                  ELSE IF e.type = "reg" THEN e.size ELSE 0,
         nlink |-> IF nl = 0 THEN 1 ELSE nl,
